@@ -102,6 +102,28 @@ def _work(item):
         if sag > 1.05 * (1.02 * r) ** 2 / (8 * R) + 1e-9 and r <= R:
             out.append((f"{shape}:chord-error", f"{label}: sagitta {sag:.6g} exceeds r^2/(8R) = {r * r / (8 * R):.6g}", rp))
         return out, n
+    if kind == "precision":
+        # the output precision is a matter of the formatter: the segment count follows the configured resolution at any decimal_places
+        # (the count is exact even where the emitted coordinates are coarse); `units` carries the number of decimals here
+        label, builder, L, R = constant_speed_cases(tier)[idx]
+        dp = int(units)
+        rp = {"kind": kind, "index": idx, "label": label + f" at {dp} decimals", "resolution": resolution, "direction": direction, "mode": mode, "units": units}
+        try:
+            run = TraceRun(START, mode, direction, resolution, dp=dp, units=None)
+        except ValueError as e:
+            return [("precision:set_resolution-raised", f"set_resolution({resolution}) on a builder with decimal_places={dp} raised {e!r}", rp)], 0
+        shape, args, exp = builder(START, direction)
+        back = float(run.st.g.state.resolution)
+        if abs(back - resolution) > 1e-12 * resolution:
+            out.append(("precision:resolution-not-kept", f"set_resolution({resolution}) on a builder with decimal_places={dp}: state.resolution = {back!r}", rp))
+        exc, verts = run.trace(shape, args, start=START)
+        if exc is not None:
+            return out + [(f"{shape}:raised", f"{label} at resolution {resolution}, {dp} decimals: {exc!r}", rp)], 0
+        n = len(verts)
+        lo, hi = L / (1.02 * resolution) - 1, L / (0.88 * resolution) + 2
+        if L >= resolution and not (lo <= n <= hi):
+            out.append((f"{shape}:segment-count-not-proportional:coarse-output", f"{label} with decimal_places={dp}: {n} segments for length {L:.6g} at resolution {resolution:g} (expected {lo:.1f}..{hi:.1f})", rp))
+        return out, n
     if kind == "units-switch":
         # the units are switched on a live builder after the resolution was set: the resolution in force afterwards is the same
         # number or the same physical length - nothing else
@@ -221,6 +243,10 @@ def run(tier, seed):
         if label in ("helix R0.05 turns3 dzNone", "helix R1.0 turns3 dzNone", "helix R10.0 turns3 dz8.0"):
             items.append(("speed", idx, 2.5 * R, "clockwise", "absolute", None, tier))       # diameter < 0.9 resolution units
             items.append(("speed", idx, 3.0 * R, "counter", "relative", None, tier))
+    for idx, (label, builder, L, R) in enumerate(cases):
+        if R in (1.0, 10.0) and ("sweep90" in label or "circle" in label):
+            for dp, r in ((1, 0.16), (1, 0.14), (0, 0.35), (3, 0.0375), (2, 0.125)):
+                items.append(("precision", idx, r, "clockwise" if dp % 2 else "counter", "absolute" if idx % 2 else "relative", str(dp), tier))
     items.append(("units-switch", 0, 0.5, "clockwise", "absolute", "in", tier))
     items.append(("units-switch", 0, 0.02, "clockwise", "absolute", "mm", tier))
     for idx, _ in enumerate(other_shapes()):
